@@ -762,13 +762,27 @@ def rule_whole_file_writes(ctx, rep: Report, rid="R6", min_sites=3):
 
 
 def _from_cli(fn, e: ast.AST) -> bool:
-    """The expression is an attribute of the namespace returned by ArgumentParser.parse_args()."""
+    """The expression is an attribute of the namespace returned by ArgumentParser.parse_args() (called here, or in a
+    module-level helper all of whose returns are that call)."""
+    def is_pa(x):
+        return isinstance(x, ast.Call) and isinstance(x.func, ast.Attribute) and x.func.attr == "parse_args"
+    root = fn
+    while parent(root) is not None:
+        root = parent(root)
+    helpers = set()
+    for f in getattr(root, "body", []):
+        if isinstance(f, ast.FunctionDef):
+            rets = [r.value for r in ast.walk(f) if isinstance(r, ast.Return) and r.value is not None]
+            bound = {st.targets[0].id for st in ast.walk(f) if isinstance(st, ast.Assign) and len(st.targets) == 1
+                     and isinstance(st.targets[0], ast.Name) and is_pa(st.value)}
+            if rets and all(is_pa(r) or (isinstance(r, ast.Name) and r.id in bound) for r in rets):
+                helpers.add(f.name)
     for n in ast.walk(e):
         if isinstance(n, ast.Attribute) and isinstance(n.value, ast.Name):
             for d in ast.walk(fn):
                 if isinstance(d, ast.Assign) and len(d.targets) == 1 and isinstance(d.targets[0], ast.Name) \
                         and d.targets[0].id == n.value.id and isinstance(d.value, ast.Call) \
-                        and isinstance(d.value.func, ast.Attribute) and d.value.func.attr == "parse_args":
+                        and (is_pa(d.value) or (isinstance(d.value.func, ast.Name) and d.value.func.id in helpers)):
                     return True
     return False
 
